@@ -28,7 +28,7 @@ TCfg == /\ Consume("cfg") /\ si' = Ev.scen
         /\ wok' = [w \in Scenarios[Ev.scen].waiters |-> TRUE]
         /\ wcalls' = [w \in Scenarios[Ev.scen].waiters |-> 0]
         /\ rets' = [w \in Scenarios[Ev.scen].waiters |-> <<>>]
-        /\ done' = FALSE /\ cpc' = (IF Scenarios[Ev.scen].cancel THEN "start" ELSE "none") /\ h' = <<>>
+        /\ done' = {} /\ cpc' = (IF Scenarios[Ev.scen].cancel # "none" THEN "start" ELSE "none") /\ h' = <<>>
 TStep == /\ Consume("step") /\ Ev.ok /\ Ev.p
          /\ ThreadStep(Ev.t)
          /\ KindOf(PcOf(Ev.t)) = ObsKind
